@@ -109,7 +109,7 @@ def run(R):
         sig = "C05:%s" % model
         cls = "bs>1" if bsz > 1 else "bs=1"
         # solver accuracy: exponential-cone (poisson) and bisection (excitation) solves are only accurate to ~1e-3
-        tol = {"excitation": 2e-2, "poisson": 1e-2}.get(model, 2e-4)
+        tol = {"excitation": 2e-2, "poisson": 1e-2, "minvar": 1e-3}.get(model, 2e-4)   # minvar: a cone problem whose own tolerance l2_eps is 1e-3
         if os.environ.get("VERIF_DEBUG"):
             print("DEBUG", c["k"], float(np.abs(Bp - Bp1).max()), outmask.tolist(), file=sys.stderr)
         if X.shape != X1.shape or Bp.shape != Bp1.shape:
